@@ -89,7 +89,7 @@ def f4Allowed (e : String × String × String × String) : Bool :=
   (e.1 == "underscore" && e.2.1 == "entry") ||
   e.2.2.1 == "/MatchString" || e.2.2.1 == "/ReplaceAllString" || e.2.2.1 == "/ReplaceAllFunc" ||
   e.2.2.1 == "/FindStringSubmatch" || e.2.2.1 == "parser/MatchString" ||
-  e.2.2.1 == "/FindStringIndex" || e.2.2.1 == "/FindAllStringSubmatchIndex" || e.2.2.1 == "/FindStringSubmatchIndex"
+  e.2.2.1 == "/FindStringIndex" || e.2.2.1 == "/FindString" || e.2.2.1 == "/FindAllStringSubmatchIndex" || e.2.2.1 == "/FindStringSubmatchIndex"
 
 theorem global_method_calls_readonly : Gen.f4.all f4Allowed = true := by decide
 
